@@ -168,7 +168,7 @@ def check_history(hist, steps, obs_table, lenient_labels=True):
             if g in obs:
                 if not real[g].get("listed", True):
                     aspects.append("graph-not-listed")
-                asp = cmp_graph(obs[g], real[g])
+                asp = [a for a in cmp_graph(obs[g], real[g]) if a not in mask]
                 if g != call.get("g") and asp:
                     aspects.append("other-graph-affected")
                 else:
